@@ -18,6 +18,8 @@ func Check(verifDir, prop, tier string, seed uint64) (int, error) {
 	switch prop {
 	case "C08", "C09", "C14":
 		return CheckSign(e, prop)
+	case "C18", "C03":
+		return CheckPool(e, prop)
 	}
 	return 2, harnessErr("property %s is not claimed by this machinery (see MANIFEST.json not_applicable)", prop)
 }
